@@ -9,6 +9,8 @@
 (*  mode "C06": life-cycle steps (Establish, Tick, Renew, SrvInvalidate,    *)
 (*     SrvSweep, legitimate Resume) up to LifeDepth, then ONE attacking     *)
 (*     connection (any Resume variant, any Replay) which ends the behaviour.*)
+(*  mode "C06walk": the attack only after exactly LifeDepth life-cycle steps *)
+(*     (long random histories with -simulate).                              *)
 (*  mode "C07": any Next07 step up to GenDepth; every prefix is printed.     *)
 (*  mode "C07walk": the same, printed at length GenDepth only (-simulate).   *)
 (*                                                                          *)
@@ -23,6 +25,8 @@ EXTENDS SessionCache, Json, SequencesExt
 
 CONSTANTS GenMode, GenDepth, LifeDepth, Canon
 
+ASSUME Bug = {}   \* behaviours of the intended design only
+
 VARIABLES hist, prev, used, phase
 
 gvars == <<vars, hist, prev, used, phase>>
@@ -34,10 +38,11 @@ A1 == CHOOSE a \in Addrs : TRUE
 SrvAlive == [s \in 1..(nextSid' - 1) |-> s \in DOMAIN srv'[A1] /\ now' <= srv'[A1][s].exp]
 SrvPresent == [s \in 1..(nextSid' - 1) |-> s \in DOMAIN srv'[A1]]
 CliLook  == [s \in 1..(nextSid' - 1) |-> CliAliveOf(cli', now', s)]
-Routes   == [i \in 1..Len(TripleSeq) |->
-               RouteOf(cli', now', TripleSeq[i][1], TripleSeq[i][2], TripleSeq[i][3])]
-Allowed  == [i \in 1..Len(TripleSeq) |->
-               IF TripleSeq[i] \in DOMAIN mayReuse' THEN mayReuse'[TripleSeq[i]] ELSE NoSid]
+\* the generator runs the intended design (Bug = {}): Route(k) is then cli.map[k] for
+\* the keys whose session is still cached and alive; one pass over the map
+LiveKeys == {k \in DOMAIN cli'.map : CliAliveOf(cli', now', cli'.map[k])}
+Routes   == {<<k[1], k[2], k[3], cli'.map[k]>> : k \in LiveKeys}
+Allowed  == {<<k[1], k[2], k[3], mayReuse'[k]>> : k \in DOMAIN mayReuse'}
 
 Log06 == hist' = Append(hist, [step |-> last', now |-> now', alive |-> SrvAlive, present |-> SrvPresent, recs |-> recs'])
 Log07 == hist' = Append(hist, [step |-> last', look |-> CliLook, routes |-> Routes, allowed |-> Allowed,
@@ -58,7 +63,8 @@ C06Next ==
   /\ phase = "life"
   /\ Next06
   /\ last'.act = "Resume" => (last'.from = "same" \/ last'.res = "resumed" \/ ~last'.perm)  \* one branch of the permissive choice
-  /\ IF IsAttack THEN phase' = "done" ELSE (Len(hist) < LifeDepth /\ phase' = "life")
+  /\ IF IsAttack THEN ((GenMode = "C06walk" => Len(hist) = LifeDepth) /\ phase' = "done")
+                 ELSE (Len(hist) < LifeDepth /\ phase' = "life")
   /\ Log06
   /\ prev' = core
   /\ UNCHANGED used
@@ -81,7 +87,7 @@ GenInit ==
   /\ used = {}
   /\ phase = "life"
 
-GenNext == IF GenMode = "C06" THEN C06Next ELSE C07Next
+GenNext == IF GenMode \in {"C06", "C06walk"} THEN C06Next ELSE C07Next
 GenSpec == GenInit /\ [][GenNext]_gvars
 
 \* every edge once: the pre-state, the step and the post-state identify it
@@ -89,7 +95,7 @@ GenView == <<core, last, prev, used, phase>>
 \* C06: every reachable (state, step) once
 GenView06 == <<core, last, phase>>
 
-Done == IF GenMode = "C06" THEN phase = "done"
+Done == IF GenMode \in {"C06", "C06walk"} THEN phase = "done"
         ELSE IF GenMode = "C07walk" THEN Len(hist) = GenDepth   \* -simulate: only complete walks
         ELSE Len(hist) >= 1
 EmitTrace == Done => PrintT(ToJson([trace |-> [h |-> hist, triples |-> TripleSeq]]))
